@@ -346,7 +346,7 @@ def run_obl(prop_id, o, workdir, extra_defs):
         if REPO + '/src' in os.path.abspath(f) if f else False:
             funcs.add('%s:%s' % (os.path.basename(f), sl.get('function')))
         if 'VF_WITNESS' in p.get('description', ''):
-            witness_failed = p['status'] == 'FAILURE'
+            witness_failed = witness_failed or p['status'] == 'FAILURE'      # several exits: any reachable harness end is a witness
             continue
         if o.witness_re and p['status'] == 'FAILURE' and re.search(o.witness_re, prop_key(p)):
             witness_failed = True
